@@ -103,10 +103,24 @@ def cases(tier, seed):
                 over.append(((b"u", b"s"), tuple(srv), tuple(cli)))
             over.append(((X, b"s"), (b"k", b"u", b"s"), (b"k", b"u", b"s")))
             over.append(((b"u", X), (b"k", b"u", b"s"), (b"k", b"u", b"s")))
+        # values of exactly the size of an internal field (public key, hash output, private key, nonce): two different
+        # values of that size are different identities / contexts, and differ from the absent one
+        Ls = Lens(s)
+        sized = []
+        for n_ in sorted({Ls.Npk, Ls.Nh, Ls.Nsk, NN, Ls.Noe}):
+            A, B = b"A" * n_, b"B" * n_
+            for pos in range(3):
+                srv = [A, A, A]; cli = [A, A, A]; cli[pos] = B
+                sized.append(((A, A), tuple(srv), tuple(cli)))
+            sized.append(((B, A), (A, A, A), (A, A, A)))
+            sized.append(((A, B), (A, A, A), (A, A, A)))
+            sized.append(((A, A), (None, A, A), (None, None, A)))
+            sized.append(((A, A), (None, A, A), (None, A, None)))
         if tier == "quick":
-            keep = trip[:8] + rnd.sample(trip[8:], 28) + rnd.sample(shape_trip, 27) + over[si % 2::2]
+            own = [t_ for t_ in sized if len(t_[1][1] or b"") == Ls.Npk]
+            keep = trip[:8] + rnd.sample(trip[8:], 28) + rnd.sample(shape_trip, 27) + over[si % 2::2] + own + rnd.sample(sized, 6)
         else:
-            keep = trip + shape_trip + over
+            keep = trip + shape_trip + over + sized
         for i, (reg, srv, cli) in enumerate(keep):
             out.append(dict(cross=["login_finish", "srv_login_finish", "srv_reg_start"], cross_limit=60, script=triple, suite=s, seed=seed * 100000 + si * 1000 + i, mode="pattern",
                             params=dict(reg=reg, srv=srv, cli=cli, cred_reg=b"user", cred_login=b"user")))
